@@ -8,6 +8,7 @@ import (
 
 	"pgregory.net/rapid"
 
+	jschema "github.com/jsightapi/jsight-schema-go-library"
 	libjson "github.com/jsightapi/jsight-schema-go-library/formats/json"
 	js "github.com/jsightapi/jsight-schema-go-library/notations/jschema"
 	libregex "github.com/jsightapi/jsight-schema-go-library/notations/regex"
@@ -29,6 +30,9 @@ type Case struct {
 	Sep  string `json:"separator"`
 	Tail string `json:"tail"`
 	Cut  bool   `json:"s_is_cut_short"` // negative half: S is lexically incomplete
+	// ReadFirst (json only): number of NextLexeme calls made on the Document before Len is first
+	// asked (a document that has been walked, e.g. by Schema.Validate, still has the same length)
+	ReadFirst int `json:"next_lexeme_calls_before_len,omitempty"`
 }
 
 func init() {
@@ -79,7 +83,18 @@ func endsWithBracketOrQuote(s string) bool {
 
 func check(t run.TB, c Case) {
 	text := c.S + c.Sep + c.Tail
-	l, err, p := callLen(mk(c.Kind, text))
+	obj := mk(c.Kind, text)
+	if d, ok := obj.(jschema.Document); ok && c.ReadFirst > 0 {
+		func() {
+			defer func() { _ = recover() }()
+			for i := 0; i < c.ReadFirst; i++ {
+				if _, err := d.NextLexeme(); err != nil {
+					break
+				}
+			}
+		}()
+	}
+	l, err, p := callLen(obj)
 	if p != nil {
 		run.Fail(t, chk, c, "Len panicked on %q: %v", text, p)
 	}
@@ -238,6 +253,13 @@ func TestLen(t *testing.T) {
 		check(t, c)
 		run.Eval(chk, c.Tail != "", c.Kind, c.S, c.Sep, c.Tail)
 		run.Label("positive:" + c.Kind)
+		if c.Kind == "json" {
+			c2 := c
+			c2.ReadFirst = rapid.SampledFrom([]int{1, 2, 5, 1000000}).Draw(t, "readFirst")
+			check(t, c2)
+			run.Eval(chk, false)
+			run.Label("json:len-after-reading")
+		}
 		if c.Sep == "" && c.Tail != "" {
 			run.Label("foreign-byte-directly-after-closer")
 		}
@@ -262,6 +284,91 @@ func TestLenScalarDirectlyFollowed(t *testing.T) {
 			}
 		}
 	}
+}
+
+// Top-level scalars cut short: whatever Len reports without an error must be the end of a
+// lexically complete value (judged by the independent JSON recogniser), and a text that does not
+// begin with a complete value at all must give an error.
+type CutCase struct {
+	Kind string `json:"kind"` // json | schema
+	Text string `json:"text"`
+}
+
+const chkCut = "len-of-cut-scalar"
+
+func init() {
+	run.RegisterReplay(chkCut, func(t run.TB, raw json.RawMessage) {
+		var c CutCase
+		if err := json.Unmarshal(raw, &c); err != nil {
+			t.Fatalf("bad case: %v", err)
+		}
+		checkCut(t, c)
+	})
+}
+
+func checkCut(t run.TB, c CutCase) (errored bool) {
+	l, err, p := callLen(mk(c.Kind, c.Text))
+	if p != nil {
+		run.Fail(t, chkCut, c, "Len panicked on %q: %v", c.Text, p)
+	}
+	_, _, ok, disputed := ref.Prefix([]byte(c.Text))
+	if err != nil {
+		return true
+	}
+	if int(l) > len(c.Text) {
+		run.Fail(t, chkCut, c, "Len(%q)=%d exceeds the text", c.Text, l)
+	}
+	if !ref.Valid([]byte(c.Text[:l])) {
+		run.Fail(t, chkCut, c, "Len(%q)=%d without error, but %q is not a lexically complete value", c.Text, l, c.Text[:l])
+	}
+	if !ok && !disputed {
+		run.Fail(t, chkCut, c, "the text %q does not begin with a lexically complete value, but Len returns %d without error", c.Text, l)
+	}
+	return false
+}
+
+func TestLenCutScalar(t *testing.T) {
+	run.SkipIfReplaying(t)
+	defer run.Done(t, chkCut)
+	rapid.Check(t, func(t *rapid.T) {
+		kind := rapid.SampledFrom([]string{"json", "json", "schema"}).Draw(t, "kind")
+		var tok string
+		switch rapid.IntRange(0, 5).Draw(t, "scalar") {
+		case 0, 1, 2:
+			tok = gen.NumberTok(t, kind == "json", "num")
+			if kind == "json" && rapid.IntRange(0, 2).Draw(t, "fracExp") == 0 {
+				// fraction and exponent together
+				tok = gen.NumberTok(t, false, "num2")
+				if !strings.Contains(tok, ".") {
+					tok += ".5"
+				}
+				tok += rapid.SampledFrom([]string{"e1", "E+2", "e-3", "E10"}).Draw(t, "exp")
+			}
+		case 3:
+			tok, _ = gen.StringTok(t, 4, "str")
+		default:
+			tok = rapid.SampledFrom([]string{"true", "false", "null"}).Draw(t, "lit")
+		}
+		lead := rapid.SampledFrom([]string{"", "", " ", "\n", "\t "}).Draw(t, "lead")
+		for cut := 1; cut <= len(tok); cut++ {
+			rest := ""
+			if rapid.IntRange(0, 2).Draw(t, "withTail") == 0 {
+				rest = rapid.SampledFrom([]string{" ", "\n", "\r\n", "  "}).Draw(t, "sep") + rapid.SampledFrom(safeTails).Draw(t, "tail")
+			}
+			c := CutCase{Kind: kind, Text: lead + tok[:cut] + rest}
+			errored := checkCut(t, c)
+			run.Eval(chkCut, cut < len(tok), c.Kind, c.Text)
+			if errored {
+				run.Label("cut:" + kind + ":error")
+			} else {
+				run.Label("cut:" + kind + ":length")
+			}
+			if rest == "" {
+				run.Label("cut:at-end-of-input")
+			}
+		}
+		run.Sample(chkCut, CutCase{Kind: kind, Text: lead + tok})
+	})
 }
 
 func TestReplay(t *testing.T) { run.TestReplay(t) }
